@@ -55,7 +55,7 @@ FIELD_REQUIRED = {
             "exp:general", "exp:noncanonical_base", "exp:zero_base", "refusal:cases", "refusal:cases_after_successful_inversions", "family:concurrent_callers"],
     "C15": ["fromS32:int32_min", "fromS32:negative", "fromS64:negative", "fromS64:beyond_centred_range", "fromString:below_minus_p",
             "fromString:negative", "fromString:above_p", "fromString:non_decimal_radix", "toS32:int32_min", "toS32:int32_max",
-            "toS32:out_of_range", "equal:alias_pairs", "out:noncanonical_representation", "toString:radix_checked", "family:concurrent_callers"],
+            "toS32:out_of_range", "equal:alias_pairs", "out:noncanonical_representation", "toString:radix_checked", "family:concurrent_callers", "fromString:same_literal_in_consecutive_radices"],
 }
 
 
@@ -91,9 +91,9 @@ LANE_REQUIRED = ["family:fixed_x_fixed", "family:small_grid", "family:solve_sum"
                  "lane:small_low_half_carry", "lane:sub_underflow_corrected", "lane:sub_no_underflow", "lane:true_sum_or_diff_noncanonical_band",
                  "lane:b_equals_0xFFFFFFFF00000000", "lane:mul_hi_lo_ffffffff", "lane:mul_hi_hi_ffffffff", "lane:mul_hi_zero",
                  "lane:load_store_set_shift_checked", "lane:in_place_call_forms"]
-MAT_REQUIRED = ["forms:result_register_is_state_register", "family:concurrent_callers", "band:probed_lane_products_noncanonical", "band:probed_two_or_more_noncanonical_addends_in_one_lane",
+MAT_REQUIRED = ["forms:result_register_is_state_register", "forms:changed_matrix_at_the_same_address", "family:concurrent_callers", "band:probed_lane_products_noncanonical", "band:probed_two_or_more_noncanonical_addends_in_one_lane",
                 "band:state_positions_with_product_in_[p,2^64)"] + \
-    ["matfam:%s:%s" % (f, w) for f in ("uniform", "boundary", "band_directed", "three_times_5555", "quotient_like", "low_word_8bit_high_word_set") for w in ("8bit", "full")]
+    ["matfam:%s:%s" % (f, w) for f in ("uniform", "boundary", "band_directed", "three_times_5555", "quotient_like", "low_word_8bit_high_word_set", "coefficients_below_2^32") for w in ("8bit", "full")]
 LANE_RULE = ("every lane of every call carries a different operand pair (lane position rotated per call); pairs from the fixed boundary set "
              "cross product, the '_small' grid (high halves equal/adjacent/sign-flipped, low halves summing just below/at/above 2^32, "
              "b up to and including 0xFFFFFFFF00000000), solve-for sums around 2^64/p/2p, 128-bit product targets (hi_lo=0xFFFFFFFF, "
@@ -238,9 +238,10 @@ POS_RULE = {
 }
 POS_REQUIRED = {
     "C06": ["family:uniform", "family:all_boundary", "family:single_hot_boundary", "family:mixed_g64", "family:inverse_constructed_round0",
-            "family:inverse_constructed_round1", "family:inverse_constructed_round2", "in:noncanonical_state_element", "backend:avx512_pairs", "forms:chained_in_place_calls",
-            "oracle:known_answers_checked", "tables:pinned_hash_checked"],
-    "C07": ["len:zero", "len:passthrough(<=4)", "len:threshold_4_5", "len:single_block", "len:multiple_of_8", "len:ragged_last_block", "len:long",
+            "family:inverse_constructed_round1", "family:inverse_constructed_round2", "family:inverse_constructed_P_layer", "family:inverse_constructed_partial_round",
+            "family:inverse_constructed_second_half", "in:noncanonical_state_element", "backend:avx512_pairs", "forms:chained_in_place_calls",
+            "oracle:known_answers_checked", "tables:pinned_hash_checked", "family:concurrent_callers"],
+    "C07": ["len:zero", "len:passthrough(<=4)", "len:threshold_4_5", "len:single_block", "len:multiple_of_8", "len:ragged_last_block", "len:long", "len:beyond_2^24_elements", "oracle:fast_arithmetic_crosschecked",
             "arena:guard_page_after_input", "arena:guard_page_before_input", "backend:avx512", "oracle:known_answers_checked", "tables:pinned_hash_checked", "family:concurrent_callers"] +
            ["len:residue_mod8_%d" % i for i in range(8)],
     "C08": ["builder:" + b for b in ("merkletree_seq", "merkletree_avx", "merkletree_avx512", "merkletree", "merkletree_batch_seq", "merkletree_batch_avx",
@@ -264,7 +265,7 @@ def check_poseidon(prop, tier, seed, work, t0):
         a = {"prod": ["--states", scaled(tier, 800000, 100000000)], "prod512": ["--states", scaled(tier, 800000, 100000000)],
              "asan": ["--states", scaled(tier, 40000, 1000000)], "asan512": ["--states", scaled(tier, 40000, 1000000)]}
     elif prop == "C07":
-        a = {"prod": ["--contents", scaled(tier, 48, 12000)], "prod512": ["--contents", scaled(tier, 48, 12000)],
+        a = {"prod": ["--contents", scaled(tier, 48, 12000)] + (["--beyond24", "1"] if th else []), "prod512": ["--contents", scaled(tier, 48, 12000), "--beyond24", "1"],
              "asan": ["--contents", scaled(tier, 8, 100)], "asan512": ["--contents", scaled(tier, 8, 100)]}
     else:
         a = {"prod": ["--thin", scaled(tier, 6, 2)], "prod512": ["--thin", scaled(tier, 4, 1)],
@@ -321,7 +322,8 @@ C12_RULE = ("workloads: NTT/INTT/extendPol configurations up to 2^6 (quick) / 2^
 C12_REQUIRED = ["mode:threads", "mode:seq", "mode:libgomp", "hook:revperm:branch0", "hook:revperm:branch1", "hook:revperm:branch2", "hook:revperm:branch3",
                 "hook:ntt_pass:writeback0", "hook:ntt_pass:writeback1", "hook:ntt_pass:writeback2", "team:1", "team:2", "team:3", "team:4", "team:7", "team:8", "team:16", "team:33",
                 "team:nonpositive_thread_argument", "team:delivered_smaller_than_requested", "limit3:team:33", "onecpu:team:33", "threads:runs_with_injected_startup_delays", "omp_shim:regions_with_permuted_member_order",
-                "omp_shim:distinct_team_member_orders(capped_8192_per_process)", "tsan:processes_completed"] + \
+                "omp_shim:distinct_team_member_orders(capped_8192_per_process)", "tsan:processes_completed", "coldstart:first_library_use_is_a_team_of_8"] + \
+    ["coldstart:" + w for w in ("merkletree_seq", "merkletree_avx", "merkletree_avx512", "merkletree", "merkletree_batch_seq", "merkletree_batch_avx", "merkletree_batch_avx512", "merkletree_batch")] + \
     ["workload:" + w for w in ("NTT", "INTT", "extendPol", "merkletree_seq", "merkletree_avx", "merkletree_avx512", "merkletree", "merkletree_batch_seq",
                                "merkletree_batch_avx", "merkletree_batch_avx512", "merkletree_batch", "parcpy", "parSetZero")]
 
